@@ -2,6 +2,7 @@
 from __future__ import annotations
 
 import json
+import re
 import random
 
 import lark
@@ -203,6 +204,22 @@ def run(ctx: Ctx) -> int:
         for sig, case in bad:
             ctx.disagree(sig, case)
     ctx.cov["replayed_deep_programs"] = len(deep)
+    # a value kind that has no literal: a message value bound as a variable (celtypes.MessageType), under every member / operator / macro form
+    from .celx import ct
+    msg = ct.MessageType({ct.StringType("a"): ct.IntType(1)})
+    forms = ["msg", "msg.a", "msg.b", "msg.a.b", "msg.b.c.d", "has(msg.a)", "has(msg.b)", "has(msg.b.c)", "msg.b || true", "msg.b && false", "true ? 1 : msg.b", "msg.b ? 1 : 2",
+             "msg['a']", "msg['b']", "msg[0]", "size(msg)", "msg.size()", "msg == msg", "msg != msg", "msg < msg", "msg + msg", "msg - msg", "-msg", "!msg", "msg in [msg]", "1 in msg", "'b' in msg",
+             "msg ? 1 : 2", "[msg].map(x, x.b)", "[msg].all(x, has(x.b))", "[msg].exists(x, x.b == 1)", "[msg].filter(x, x.a == 1)", "[msg].exists_one(x, x.b)", "msg.map(k, k)", "msg.all(k, msg[k] == 1)",
+             "type(msg)", "string(msg)", "int(msg)", "bool(msg)", "dyn(msg).b", "{msg: 1}", "{'k': msg}.k.b", "[msg][0].b", "msg.contains('a')", "msg.matches('a')", "msg.getHours()",
+             "msg.unknown_method()", "msg.b(1)", "msg.a(1)", "msg{a: 1}", "msg.b == msg.b", "[msg.b]", "{'k': msg.b}", "size([msg.b])"]
+    nmsg = 0
+    for text in forms:
+        for rr, prob, detail in classify(text, {"msg": msg}):
+            nmsg += 1
+            if prob:
+                ctx.disagree("message value %s: %s runner=%s" % (re.sub(r"[a-z0-9_'\" ]+", "_", text)[:30], prob, rr), {"cel": text, "binding": "msg = MessageType({'a': 1})", "runner": rr, "problem": prob, "msg": detail})
+    nobs += nmsg
+    ctx.cov["message_value_forms"] = len(forms)
     # every literal text of the C07 string model, well-formed or not (escapes that do not belong, \\u in bytes, ...)
     r = ctx.tlc("MC_C07", "SPECIFICATION Spec\nCONSTANTS LEN = 2\nCHECK_DEADLOCK FALSE\n", dump=True, name="literal texts, well-formed or not")
     lits = sorted(set("".join(chr(c) for c in s["text"]) for s in read_dump(r.dump)))
@@ -290,7 +307,7 @@ def run(ctx: Ctx) -> int:
     ctx.cov["compile_events"] = ncompile
     ctx.cov["evaluate_events"] = len(lines) - ncompile
     ctx.assumptions += ["token sequences are rendered space-separated (lexical maximal munch is out of model)",
-                        "activations contain CEL values only; protobuf message construction is not generated"]
+                        "activations contain CEL values only (including a message value bound as a variable); protobuf message construction is not generated"]
     return ctx.finish(rule="TLC enumerates every operator / member form / function / method / macro over 14 value kinds (ill-typed included) and every "
                            "token sequence up to the length bound; the implementation may only return a value or raise CELEvalError / CELParseError "
                            "(located, renderable with str() and repr()); accept/reject must agree with the grammar; random nested programs and "
